@@ -67,7 +67,39 @@ def zipped_2d(case):
     return False
 
 
+def _variant(inputs, tag):
+    def ren(x):
+        if isinstance(x, str):
+            return x + tag
+        if isinstance(x, list):
+            return [ren(y) for y in x]
+        a = np.empty(x.shape, dtype=object)
+        for idx in np.ndindex(*x.shape):
+            a[idx] = ren(x[idx])
+        return a
+    return {k: ren(x) for k, x in inputs.items()}
+
+
 def run_one(v, case, scratch, i):
+    """Every third case first runs the map with OTHER input values into the same folder and loads that dataset, so
+    that the run that is judged re-uses a folder (and a process) that already served another run."""
+    from pipefunc.map import load_xarray_dataset
+
+    if i % 3 == 1:
+        folder = os.path.join(scratch, f"run{i}")
+        try:
+            with quiet():
+                p_old = mapgen.build_pipeline(case)
+                p_old.map(_variant(mapgen.make_inputs(case), "~old"), run_folder=folder, internal_shapes=mapgen.internal_shapes_arg(case),
+                          parallel=False, storage="file_array")
+                load_xarray_dataset(run_folder=folder)
+            v.count("folders_reused_after_another_run")
+        except Exception:  # noqa: BLE001
+            pass
+    return _run_one(v, case, scratch, i)
+
+
+def _run_one(v, case, scratch, i):
     from pipefunc.map import load_xarray_dataset
     from pipefunc.map.xarray import xarray_dataset_from_results
 
@@ -219,6 +251,8 @@ def finalize(agg, tier, seed):
         floors.append("fewer than 300 coordinate expectations checked")
     if c.get("selections_compared", 0) < 300:
         floors.append("fewer than 300 selections compared")
+    if c.get("folders_reused_after_another_run", 0) < 50:
+        floors.append("fewer than 50 runs into a folder that already served another run")
     if c.get("identical_comparisons", 0) < 300:
         floors.append("fewer than 300 identical() comparisons")
     return floors, {}
